@@ -260,9 +260,82 @@ fn op_stats(toks: &[Tok], prop: &str) -> Outcome {
     Outcome { result: w.0, oracle }
 }
 
+/// 33 SCAN: collect_statistics over an arbitrary byte stream and read schedule, every field of every Statistic
+struct FullRecording {
+    visits: Vec<Vec<Tok>>,
+    inner: StatisticInfoCollector,
+}
+impl StatisticCollector for FullRecording {
+    fn collect_statistic(&mut self, s: Statistic) -> Result<(), DltParseError> {
+        let mut w = W::new();
+        match &s.log_level {
+            Some(l) => {
+                w.n(1);
+                w.log_level(l)
+            }
+            None => w.n(0),
+        }
+        w.opt_sh(&s.storage_header);
+        w.std(&s.standard_header);
+        match &s.extended_header {
+            Some(x) => {
+                w.n(1);
+                w.ext(x)
+            }
+            None => w.n(0),
+        }
+        w.b(s.payload);
+        w.bool(s.is_verbose);
+        self.visits.push(w.0);
+        self.inner.collect_statistic(s)
+    }
+}
+
+fn op_scan(toks: &[Tok], prop: &str) -> Outcome {
+    let mut r = R::new(toks);
+    let sh = r.bool();
+    let n = r.n();
+    let sched: std::collections::VecDeque<u64> = (0..n).map(|_| r.n() as u64).collect();
+    let data = r.b();
+    let mut w = W::new();
+    let mut oracle = vec![];
+    let res = guarded(|| {
+        let src = crate::ops4::SchedSource { data: data.clone(), pos: 0, sched };
+        let mut reader = DltMessageReader::new(src, sh);
+        let mut rec = FullRecording { visits: vec![], inner: StatisticInfoCollector::default() };
+        let end = collect_statistics(&mut reader, &mut rec);
+        (rec.visits, end.err(), rec.inner.collect())
+    });
+    match res {
+        None => {
+            w.n(0);
+            w.n(9);
+            if prop == "C10" {
+                oracle.push(("no_panic".into(), "collect_statistics panicked".into()));
+            }
+        }
+        Some((visits, err, si)) => {
+            w.n(visits.len() as u128);
+            for v in &visits {
+                w.0.extend(v.iter().cloned());
+            }
+            match &err {
+                None => w.n(0),
+                Some(e) => {
+                    w.n(1);
+                    crate::ops::w_parse_err(&mut w, e);
+                }
+            }
+            w_si(&mut w, &si);
+        }
+    }
+    Outcome { result: w.0, oracle }
+}
+
 pub fn run_case3(prop: &str, op: u32, toks: &[Tok]) -> Outcome {
     match op {
         32 => op_stats(toks, prop),
+        33 => op_scan(toks, prop),
         _ => crate::ops4::run_case4(prop, op, toks),
     }
 }
